@@ -7,6 +7,7 @@ package rp
 import (
 	"encoding/json"
 	"fmt"
+	"runtime/debug"
 	"testing"
 
 	"pgregory.net/rapid"
@@ -78,7 +79,7 @@ func (p P[T]) Run(t *testing.T) {
 func safe[T any](check func(T) *Fail, c T) (f *Fail) {
 	defer func() {
 		if r := recover(); r != nil {
-			f = &Fail{Fingerprint: "panic-in-check", Msg: fmt.Sprintf("panic while checking case: %v", r)}
+			f = &Fail{Fingerprint: "panic-in-check", Msg: fmt.Sprintf("panic while checking case: %v\n%s", r, debug.Stack())}
 		}
 	}()
 	return check(c)
